@@ -213,7 +213,9 @@ def extract(ctx):
             # one-shot port callbacks: does the handler also compare the parameter id?
             tests = [ast.unparse(n.test) for n in ast.walk(h) if isinstance(n, ast.If)]
             X.expect(tests and 'pk.data[0] ==' in tests[0], fn + ': one-shot handler does not test the command byte first')
-            r = 1 if ('element.ident' in tests[0] or 'ident' in tests[0].replace('element.ident', 'ident')) else 0
+            r = 1 if 'element.ident' in tests[0] else 0
+            t0 = [n.test for n in ast.walk(h) if isinstance(n, ast.If)][0]
+            g.strings(short + 'Match', [ast.unparse(v) for v in t0.values] if isinstance(t0, ast.BoolOp) and isinstance(t0.op, ast.And) else [ast.unparse(t0)])
             X.expect(len(rems) >= 1, fn + ': one-shot handler never unregisters itself')
             sends = _calls(f, 'self.param_updater.')
             X.expect(sends == ['self.param_updater.send_param_misc(pk)'], fn + ': unexpected request path ' + repr(sends))
@@ -231,6 +233,7 @@ def extract(ctx):
             g.string(short + 'ReqFmt', '<BH')      # replaced below by the helper's format
             g.strings(short + 'ReqArgs', [ast.unparse(call.args[0]), ast.unparse(call.args[1])])
             g.string(short + 'RegisterTest', '')
+            g.strings(short + 'Match', [])
         X.expect(routing is None or routing == r, 'the four misc functions route replies differently')
         routing = r
         g.strings(short + 'HandlerCompares', X.compares(h))
@@ -324,7 +327,7 @@ def source_variant():
     if _calls(f, 'self.cf.add_port_callback'):
         h = _nested(f, 'new_packet_cb')
         tests = [ast.unparse(n.test) for n in ast.walk(h) if isinstance(n, ast.If)]
-        routing = 1 if 'ident' in tests[0] else 0
+        routing = 1 if 'element.ident' in tests[0] else 0
     else:
         routing = 2
     hrun = X.find(X.parse(CF), '_IncomingPacketHandler.run')
@@ -368,6 +371,23 @@ class _LogCatch(logging.Handler):
         self.sink.append('cberr:' + enum)
 
 
+class _LockProxy:
+    """stands in for `_ParamUpdater.wait_lock`: same behaviour, but a successful release is logged in event order"""
+
+    def __init__(self, lock, sink):
+        self._l, self._sink = lock, sink
+
+    def acquire(self, *a, **kw):
+        return self._l.acquire(*a, **kw)
+
+    def release(self):
+        self._l.release()
+        self._sink.append('rel')
+
+    def locked(self):
+        return self._l.locked()
+
+
 class Real:
     """the real Crazyflie + Param connected to a simulated device, one atomic step per call.
     Every method returns the list of observation tokens of the step (same vocabulary as Driver/C04.lean)."""
@@ -399,6 +419,8 @@ class Real:
         def no_wait(timeout=None):
             raise WouldBlock()
         self.param._initialized.wait = no_wait
+        if hasattr(self.upd, 'wait_lock'):
+            self.upd.wait_lock = _LockProxy(self.upd.wait_lock, self.log)
         self.param.all_updated.add_callback(lambda: self.log.append('allupd'))
         # the extended-type fetcher of the connection phase leaves its port callback registered for ever (C03's domain);
         # it raises on misc packets shorter than 3 bytes.  It is not part of the C04 model: unregister it.
@@ -539,8 +561,6 @@ class Real:
         if not self.link.ready:
             return None
         pkt = self.link.ready[0]
-        lock = getattr(self.upd, 'wait_lock', None)
-        before = lock.locked() if lock is not None else None
         with self.s._active():
             self.link.budget = 1
             try:
@@ -549,16 +569,7 @@ class Real:
                 pass
             finally:
                 self.link.budget = None
-        toks = self._flush()
-        if before and not lock.locked():
-            # position of `rel`: after the update callbacks of this packet, before the misc callback
-            i = len(toks)
-            for k, t in enumerate(toks):
-                if t.startswith('misc:'):
-                    i = k
-                    break
-            toks.insert(i, 'rel')
-        return pkt, toks
+        return pkt, self._flush()
 
     def inject(self, chan, data):
         self.link.inject(2, chan, bytes(data))
@@ -750,7 +761,7 @@ def strip_model(reply):
     toks = reply.split(' ')
     if toks[0] != 'ok':
         return toks
-    rest = [canon_tok(t) for t in toks[1:] if not t.startswith('enq:') and t != '-']
+    rest = [canon_tok(t) for t in toks[1:] if not t.startswith('enq:') and t not in ('-', 'rxd')]
     return ['ok'] + rest
 
 
@@ -896,15 +907,16 @@ def correspond(ctx):
     replies = ctx.lean(DRIVER, lines)
     i = 0
     for sc in scenarios:
+        bad = False
         for line, want in zip(sc.lines, sc.expect):
             got = replies[i]
             i += 1
-            if want is None:
+            if want is None or bad:
                 continue
             ctx.case({'op': line[:120]}, line.split(' ')[0] + ':' + ' '.join(norm_expect(want))[:80])
             if strip_model(got) != norm_expect(want):
                 ctx.disagree(line.split(' ')[0], line[:300], got[:300], ' '.join(want)[:300])
-                break
+                bad = True           # the states have diverged: the rest of this scenario is not comparable
 
 
 # ---- direct evaluation of the property on the real code (failing-input search) -------------------------------
@@ -983,7 +995,11 @@ def _misc_case(ctx, S, routing, reqs, ctypes, label):
     _pump(r)
     if got != expected:
         bad = sorted(set(k for k in set(got) | set(expected) if got.get(k) != expected.get(k)))
-        ctx.witness('misc-reply-attribution', 'a persistent/default-value reply was not delivered exactly once to the request it answers',
+        keys = [(k, i) for (k, i, _) in reqs]
+        dup = len(set(keys)) != len(keys)
+        ctx.witness('D5b-same-cmd-id-duplicates' if dup else 'misc-reply-attribution',
+                    'a persistent/default-value reply was not delivered exactly once to the request it answers'
+                    + (' (several outstanding requests with the same command and parameter)' if dup else ''),
                     {'requests': [[k, 'g.p%d' % i, cb] for (k, i, cb) in reqs], 'param_types': ctypes, 'family': label},
                     expected={str(k): repr(expected.get(k)) for k in bad}, got={str(k): repr(got.get(k)) for k in bad})
         return False
